@@ -8,15 +8,15 @@ EXTENDS Naturals, Sequences, FiniteSets, TLC, Json, IOUtils
 VARIABLE i
 Cases == JsonDeserialize(IOEnv.CASES)
 
-Fields == <<"cls", "val", "args", "type", "comments", "meta">>
-NodeDiff(x, y) == SelectSeq(Fields, LAMBDA f : x[f] # y[f])
+\* the fields compared are named by the case (C12: structure and annotations; C09 adds object identity and links)
+NodeDiffF(fs, x, y) == SelectSeq(fs, LAMBDA f : x[f] # y[f])
 
 \* absent and empty list are the same argument (dump drops both); otherwise exact shape
 FirstDiff(c) ==
     IF Len(c.a) # Len(c.b) THEN <<"size", 0>>
-    ELSE LET bad == { n \in DOMAIN c.a : NodeDiff(c.a[n], c.b[n]) # <<>> }
+    ELSE LET bad == { n \in DOMAIN c.a : NodeDiffF(c.fields, c.a[n], c.b[n]) # <<>> }
          IN IF bad = {} THEN <<"", 0>>
-            ELSE LET n == CHOOSE x \in bad : \A y \in bad : x <= y IN <<NodeDiff(c.a[n], c.b[n])[1], n>>
+            ELSE LET n == CHOOSE x \in bad : \A y \in bad : x <= y IN <<NodeDiffF(c.fields, c.a[n], c.b[n])[1], n>>
 
 Clauses(c) == << <<"SameTree", FirstDiff(c)[1] = "">>,
                  <<"EqHolds", c.eq>>,            \* sqlglot's own == says equal (must agree with SameTree)
